@@ -41,6 +41,8 @@ pub enum Ret {
     Ioctl { result: i32, data: Vec<u8> },
     Unit,
     Dirents(Vec<OwnedDirent>),
+    /// offer the entries, then fail (an error half way through a directory)
+    DirentsErr(Vec<OwnedDirent>, i32),
     Init(u64),
 }
 
@@ -511,6 +513,15 @@ impl FileSystem for ScriptedFs {
                 self.rec("readdir", Some(ctx), args, err_json(os, &kind));
                 Err(mkerr(os, &kind))
             }
+            Ret::DirentsErr(list, os) => {
+                for d in list.iter() {
+                    if !matches!(add_entry(DirEntry { ino: d.ino, offset: d.offset, type_: d.type_, name: &d.name }), Ok(n) if n > 0) {
+                        break;
+                    }
+                }
+                self.rec("readdir", Some(ctx), args, err_json(os, &None));
+                Err(mkerr(os, &None))
+            }
             Ret::Dirents(list) => {
                 let mut offered = Vec::new();
                 for d in list.iter() {
@@ -540,6 +551,15 @@ impl FileSystem for ScriptedFs {
             Ret::Err { os, kind } => {
                 self.rec("readdirplus", Some(ctx), args, err_json(os, &kind));
                 Err(mkerr(os, &kind))
+            }
+            Ret::DirentsErr(list, os) => {
+                for d in list.iter() {
+                    if !matches!(add_entry(DirEntry { ino: d.ino, offset: d.offset, type_: d.type_, name: &d.name }, d.entry), Ok(n) if n > 0) {
+                        break;
+                    }
+                }
+                self.rec("readdirplus", Some(ctx), args, err_json(os, &None));
+                Err(mkerr(os, &None))
             }
             Ret::Dirents(list) => {
                 let mut offered = Vec::new();
